@@ -540,3 +540,12 @@ Definition impl_ok (once : bool) (tbl : list (str * str)) (df1000 plimit : N) (d
            (code : N) (bytes : str) (idmap : list (str * str)) : bool :=
   outcome_eqb (normalize_with (tbl_H tbl) once (fuel_for d) (Some df1000) (Some plimit) d)
               code bytes idmap.
+
+(* strings in generated case files are packed into one numeral: a leading hexadecimal digit 1
+   followed by six hexadecimal digits per code point (parsing long list literals is slow) *)
+Fixpoint unpack_f (fuel : nat) (n : N) (acc : str) : str :=
+  match fuel with
+  | O => acc
+  | S f => if n <=? 1 then acc else unpack_f f (N.shiftr n 24) (N.land n 16777215 :: acc)
+  end.
+Definition U (n : N) : str := unpack_f (N.to_nat (N.size n)) n [].
